@@ -151,3 +151,124 @@ def lindblad_form(ctx) -> None:
     okc = s.startswith("((-0-0.5j) * sum(") and ".mH @ " in s
     ctx.ob("LINDBLAD-form", "noise term", g.loc(), okc,
            "noise term = −(i/2) Σ L†L" if okc else f"compute_noise_from_lindbladians returns {s[:80]}")
+
+
+def _loop_over_all_qubits(node: ast.AST, allowed: tuple) -> bool:
+    """`for q in range(len(self.omegas))` / `range(self.nqubits)` / `enumerate(self.omegas)`: every qubit, no filter."""
+    if not isinstance(node, (ast.For, ast.comprehension)):
+        return False
+    s = util.text(node.iter).replace(" ", "")
+    return s in allowed
+
+
+ALL_QUBITS = ("range(len(self.omegas))", "range(self.nqubits)", "enumerate(self.omegas)", "enumerate(c_omegas)",
+              "range(len(self.deltas))", "range(0,self.nqubits)")
+
+
+def lindbladian_structure(ctx) -> None:
+    """Every qubit contributes its local term (drive, detuning and the −i/2 ΣL†L noise part) to H_eff, the interaction
+    term is added once, and the jump term sums over every qubit and every operator."""
+    prog = ctx.prog
+    C = prog.cls("emu_sv.lindblad_operator.RydbergLindbladian")
+    h = C.methods["h_eff"]
+    loops = [n for n in util.walk_own(h.node) if isinstance(n, ast.For)]
+    ok = len(loops) == 1 and _loop_over_all_qubits(loops[0], ALL_QUBITS) and \
+        not any(isinstance(n, (ast.If, ast.Continue, ast.Break)) for st in loops[0].body for n in ast.walk(st))
+    ctx.ob("LINDBLAD-form", "h_eff covers every qubit", h.loc(loops[0]) if loops else h.loc(), ok,
+           "H_eff ρ sums the local term of every qubit, unconditionally" if ok else
+           f"h_eff iterates over {util.text(loops[0].iter, 60) if loops else 'no loop'}"
+           + (" with a filter" if loops and _loop_over_all_qubits(loops[0], ALL_QUBITS) else "")
+           + ": qubits that are skipped lose their −i/2 ΣL†L term while their L ρ L† term is still added — the "
+             "generator no longer preserves the trace (e.g. an undriven atom with relaxation)")
+    it = Interp(prog, C, inline=lambda c, r, d: False, loop_iters=(1,))
+    p = [q for q in it.run(h) if q.status == "return"][0]
+    adds = [e for e in p.events if e.kind == "call" and e.name.endswith("apply_local_op_to_density_matrix")]
+    okl = len(adds) == 1 and "_local_terms_hamiltonian(" in show(adds[0].args.get("local_op")) and \
+        strip_typed(adds[0].args.get("target_qubit"))[0] == "elem"
+    inter = [e for e in p.events if e.kind == "call" and e.name.endswith("_apply_interaction_terms")]
+    oki = len(inter) == 1 and not inter[0].ctx
+    ctx.ob("LINDBLAD-form", "h_eff terms", h.loc(), okl and oki,
+           "per qubit: apply(local Hamiltonian of that qubit); once: the interaction term" if okl and oki else
+           f"h_eff: local applications per iteration={len(adds)} (operand ok={okl}), interaction term calls outside the "
+           f"loop={len(inter)}")
+    # local term: ω·(σx | cosφ σx + sinφ σy) − δ·n + noise, on both phase branches
+    lt = C.methods["_local_terms_hamiltonian"]
+    okt = True
+    n = 0
+    for q in it.run(lt):
+        if q.status != "return":
+            continue
+        n += 1
+        mons = monomials(q.retval)
+        have = {"drive": 0, "det": 0, "noise": 0}
+        for m, c in mons.items():
+            s = repr(m)   # raw terms: keeps the qualified names of module-level operator tensors
+            if "omegas" in s and abs(c - 1) < 1e-12:
+                have["drive"] += 1
+            elif "deltas" in s and "n_op" in s and abs(c + 1) < 1e-12:
+                have["det"] += 1
+            elif "lindblad_ops" in s and abs(c - 1) < 1e-12:
+                have["noise"] += 1
+        okt = okt and have["det"] == 1 and have["noise"] == 1 and have["drive"] >= 1
+    ctx.ob("LINDBLAD-form", "local term", lt.loc(), okt and n == 2,
+           "local term = Ω/2·(σx or cosφ σx + sinφ σy) − δ·n + noise, with and without phases" if okt and n == 2 else
+           "the single-qubit term of the Lindbladian is not drive − δ·n + noise on both phase branches")
+    mm = C.methods["__matmul__"]
+    gens = [g for nn in ast.walk(mm.node) if isinstance(nn, (ast.GeneratorExp, ast.ListComp)) for g in nn.generators]
+    okg = len(gens) == 2 and _loop_over_all_qubits(gens[0], ALL_QUBITS) and util.text(gens[1].iter) == "self.pulser_lindblads" \
+        and not gens[0].ifs and not gens[1].ifs
+    ctx.ob("LINDBLAD-form", "jump term covers every qubit and operator", mm.loc(), okg,
+           "Σ_k L_k ρ L_k† runs over every qubit and every jump operator" if okg else
+           f"the jump term iterates over {[util.text(g.iter, 40) for g in gens]} (filters: {[len(g.ifs) for g in gens]})")
+
+
+def hamiltonian_structure(ctx) -> None:
+    """RydbergHamiltonian: H·v = diag·v + Σ_n Ω_n/2 (σ terms) over every qubit; diag = −ΣΔ_i n_i + Σ_{i<j} U_ij n_i n_j."""
+    prog = ctx.prog
+    C = prog.cls("emu_sv.hamiltonian.RydbergHamiltonian")
+    for name in ("_apply_sigma_operators_real", "_apply_sigma_operators_complex"):
+        m = C.methods[name]
+        loops = [n for n in util.walk_own(m.node) if isinstance(n, ast.For)]
+        ok = len(loops) == 1 and _loop_over_all_qubits(loops[0], ALL_QUBITS) and \
+            not any(isinstance(n, (ast.If, ast.Continue, ast.Break)) for st in loops[0].body for n in ast.walk(st))
+        ctx.ob("HAM-form", f"{name} covers every qubit", m.loc(), ok,
+               "the drive term is applied for every qubit, unconditionally" if ok else
+               f"{name} iterates over {util.text(loops[0].iter, 50) if loops else 'no loop'} or filters qubits")
+    d = C.methods["_create_diagonal"]
+    it = Interp(prog, C, inline=lambda c, r, d_: False, loop_iters=(1,))
+    p = [q for q in it.run(d) if q.status == "return"][0]
+    subs = [e for e in p.events if e.kind == "setitem" or (e.kind == "setattr")]
+    # the two in-place updates: i_fixed -= deltas[i] ; i_j_fixed += U[i, j]
+    augs = [n for n in util.walk_own(d.node) if isinstance(n, ast.AugAssign)]
+    okd = oku = False
+    loops = [n for n in ast.walk(d.node) if isinstance(n, ast.For)]
+    for a in augs:
+        s = util.text(a.value).replace(" ", "")
+        if isinstance(a.op, ast.Sub) and s.startswith("self.deltas[") and len(loops) >= 1 and \
+                s == f"self.deltas[{util.text(loops[0].target)}]":
+            okd = True
+        if isinstance(a.op, ast.Add) and s.startswith("self.interaction_matrix[") and len(loops) == 2:
+            i, j = util.text(loops[0].target), util.text(loops[1].target)
+            oku = s in (f"self.interaction_matrix[{i},{j}]", f"self.interaction_matrix[{j},{i}]")
+    okr = len(loops) == 2 and util.text(loops[0].iter).replace(" ", "") == "range(self.nqubits)" and \
+        util.text(loops[1].iter).replace(" ", "") == f"range({util.text(loops[0].target)}+1,self.nqubits)"
+    ctx.ob("HAM-form", "diagonal", d.loc(), okd and oku and okr,
+           "diag = −Σ_i Δ_i n_i + Σ_{i<j} U_ij n_i n_j over all i and all j > i" if okd and oku and okr else
+           f"_create_diagonal: detuning term ok={okd}, interaction term ok={oku}, loops over all pairs i<j ok={okr}")
+    mul = C.methods["__mul__"]
+    pm = [q for q in it.run(mul) if q.status == "return"]
+    okm = all("self.diag" in show(q.retval) and strip_typed(q.retval)[0] == "bin" for q in pm) and len(pm) == 2
+    both = {e.name.split(".")[-1] for q in pm for e in q.events if e.kind == "call" and "_apply_sigma_operators" in e.name}
+    sel = all(any("self.complex" in show(c) for c, t in q.cond_log) for q in pm)
+    ctx.ob("HAM-form", "H·v", mul.loc(), okm and len(both) == 2 and sel,
+           "H·v = diag·v plus the σ terms, complex path iff any phase is non-zero" if okm and len(both) == 2 and sel else
+           "RydbergHamiltonian.__mul__ no longer adds diag·v and exactly one of the σ-term routines chosen by self.complex")
+    init = C.methods["__init__"]
+    pi_ = [q for q in it.run(init) if q.status == "return"][0]
+    cx = pi_.heap.get((SELF, "complex"))
+    om = pi_.heap.get((SELF, "omegas"))
+    okc = cx is not None and show(cx) in ("phis.any()", "self.phis.any()") or (cx is not None and show(cx).endswith("phis.any()"))
+    oko = om is not None and same(om, ("bin", "Div", ("param", init.qualname, "omegas"), ("const", 2.0)))
+    ctx.ob("HAM-form", "complex flag and Ω/2", init.loc(), bool(okc) and oko,
+           "complex ⇔ any phase non-zero; stored amplitude is Ω/2" if okc and oko else
+           f"complex = {show(cx) if cx else None}, omegas = {show(om)[:40] if om else None}")
